@@ -235,6 +235,9 @@ pub struct Chunk {
     pub data: Vec<u8>,
     pub pos: u64,
     pub ctl: Rc<RefCell<ChunkCtl>>,
+    /// write-behind storage: (offset, bytes) accepted by `write` but only visible to `read`/`seek`
+    /// after `flush` (a BufWriter-like or remote storage)
+    pub pending: Vec<(u64, Vec<u8>)>,
 }
 
 #[derive(Default)]
@@ -248,6 +251,15 @@ pub struct ChunkCtl {
     pub ops: u64,
     pub op_fault: Option<(u64, u64)>,
     pub choppy: Option<Rng>,
+    /// writes become visible only at `flush`
+    pub write_behind: bool,
+    /// persistent fault: any write that would grow a chunk beyond this many bytes fails
+    pub big_fail: Option<(u64, u64)>,
+    /// number of faults returned so far (any kind)
+    pub faults_fired: u64,
+    /// chunks alive right now / the most ever alive at once
+    pub live: i64,
+    pub max_live: i64,
 }
 
 impl Chunk {
@@ -256,6 +268,7 @@ impl Chunk {
         c.ops += 1;
         if let Some((n, tag)) = c.op_fault {
             if c.ops == n {
+                c.faults_fired += 1;
                 return Err(tagged_error(tag));
             }
         }
@@ -267,6 +280,7 @@ impl Drop for Chunk {
     fn drop(&mut self) {
         let mut c = self.ctl.borrow_mut();
         c.dropped += 1;
+        c.live -= 1;
         c.events.push('X');
     }
 }
@@ -286,6 +300,21 @@ impl Write for Chunk {
             }
         }
         let pos = self.pos as usize;
+        {
+            let mut c = self.ctl.borrow_mut();
+            if let Some((limit, tag)) = c.big_fail {
+                if (pos + n) as u64 > limit {
+                    c.faults_fired += 1;
+                    return Err(tagged_error(tag));
+                }
+            }
+            if c.write_behind {
+                drop(c);
+                self.pending.push((self.pos, buf[..n].to_vec()));
+                self.pos += n as u64;
+                return Ok(n);
+            }
+        }
         if self.data.len() < pos + n {
             self.data.resize(pos + n, 0);
         }
@@ -294,7 +323,15 @@ impl Write for Chunk {
         Ok(n)
     }
     fn flush(&mut self) -> io::Result<()> {
-        self.tick()
+        self.tick()?;
+        for (off, bytes) in std::mem::take(&mut self.pending) {
+            let off = off as usize;
+            if self.data.len() < off + bytes.len() {
+                self.data.resize(off + bytes.len(), 0);
+            }
+            self.data[off..off + bytes.len()].copy_from_slice(&bytes);
+        }
+        Ok(())
     }
 }
 
@@ -348,10 +385,13 @@ impl grenad::ChunkCreator for Creator {
         c.created += 1;
         if let Some((n, tag)) = c.create_fault {
             if c.created == n {
+                c.faults_fired += 1;
                 return Err(tagged_error(tag));
             }
         }
         c.events.push('C');
-        Ok(Chunk { data: Vec::new(), pos: 0, ctl: self.0.clone() })
+        c.live += 1;
+        c.max_live = c.max_live.max(c.live);
+        Ok(Chunk { data: Vec::new(), pos: 0, ctl: self.0.clone(), pending: Vec::new() })
     }
 }
